@@ -58,7 +58,7 @@ PROPS["C02"] = {
                   "comparing command trace, result class and final keyspace.",
     "level_note": "Trusted: Lean kernel; MiniRedis as a description of Redis' replies; float text codec (hypothesis RoundTrips); "
                   "decoding of compact encodings is a parameter (C12); the model-code tie is sampled.",
-    "rule": "r: entries of every type but module (string, list, set, zset text/binary, hash, zipmap, list/hash/zset ziplist, intset, quicklist, stream, lua) built by an own DUMP "
+    "rule": "(strings are stored raw, as int8/16/32, or LZF-compressed: literal runs, or a greedy compressor with back references incl. overlapping ones.) r: entries of every type but module (string, list, set, zset text/binary, hash, zipmap, list/hash/zset ziplist, intset, quicklist, stream, lua) built by an own DUMP "
             "serializer x threshold {0, len-1, len, 1, huge} x key_exists x TargetReplace x 19 version strings x target rejecting types x "
             "shift x hash-tag replacement x ucloud x pre-existing key of each type; collection sizes 0,1,2..7,99,100,101,200,201; "
             "expired/unexpired; chunked hashes as entry sequences with server-clock gaps; malformed payloads (truncated bodies, damaged "
